@@ -89,6 +89,13 @@ def build(thorough, rng):
               "string(123456789012345678)", "string(0.000000001)", "string(-0.000123)", "string(1 div 1024)"]:
         ex.append(("examples", e))
     # translate
+    # (kept by hand: a character of more than one byte stands in the second argument BEFORE the character that matches - positions
+    # are counted in characters; the detection of seed C09-G had depended on a random triple)
+    for e in ["translate('bar','\u00e9ar','XYZ')", "translate('a\U0001d4b3b','\U0001d4b3b','12')", "translate('abc','\u00a0bc','_12')",
+              "translate('na\u00efve','\u00efv','12')", "translate('xyz','\u00e4\u00f6z','123')", "translate('abc','\u00e4b','')",
+              "translate('a\u00e9','\u00e9a','12')", "translate('abc','\u754cc\u754c','12')", "translate('\u00e9a\u00e9','a\u00e9','\u754cz')",
+              "translate('abc','\U0001d4b3\u00e9abc','12345')", "translate('c','\u00e9\u00e9\u00e9c','123')"]:
+        ex.append(("translate", e))
     for _ in range(300 if not thorough else 1500):
         ex.append(("translate", "translate(%s,%s,%s)" % (rng.choice(S), rng.choice(S), rng.choice(S))))
     return ex
